@@ -586,7 +586,10 @@ def marker_codec(ctx, s):
     comps = []   # (width or None, kind) in extend order
     for b, info in sorted(an.calls(), key=lambda x: (x[1]["sp"]["l"], x[1]["sp"]["c"])):
         c = info["callee"] or ""
-        if not (c.endswith("::extend") and "vec" in c):
+        if c.endswith("::push") and "vec" in c:
+            comps.append((1, "byte"))       # one byte appended (the length byte)
+            continue
+        if not ((c.endswith("::extend") or c.endswith("::extend_from_slice")) and "vec" in c):
             continue
         arg = info["args"][1]
         argv = info["pre"][1] if arg[0] in ("ref", "unsize") and info["pre"][1] is not None else arg
@@ -624,7 +627,13 @@ def marker_codec(ctx, s):
         v = info["value"]
         if v[0] == "sliceto" and v[2][0] == "const":
             padlen = v[2][1]
-    ctx.floor("C16.codec.builder-prefix-components", len(prefix), 3)
+    ctx.instances["C16.codec.builder-prefix-components"] = len(prefix)
+    if len(prefix) < 3:
+        s.add("S-LAYOUT", dump, "naddr-key-codec", "kind|author|dlen|d", dump.sp, UNDECIDED,
+              "how key_naddr_index lays out its fixed-width prefix (kind, author, length byte) was not recognised: "
+              "agreement with the decoder is not decided")
+        _deleted_id_codec(ctx, s)
+        return
     offs = [0]
     for w, k in prefix:
         offs.append(offs[-1] + w)
@@ -680,17 +689,23 @@ def marker_codec(ctx, s):
               sorted(ranges), sorted(idxs), offs, padlen) if (ok and ok_endian) else
           "dump_naddr_deleted decodes ranges %s / index %s (%s) but key_naddr_index lays out offsets %s, d width %s (%s): "
           "rebuild would re-create markers for different addresses" % (sorted(ranges), sorted(idxs), sorted(conv), offs, padlen, sorted(wconv)))
+    _deleted_id_codec(ctx, s)
+    return padlen
+
+
+def _deleted_id_codec(ctx, s):
     # deleted ids: 32-byte key written, first 32 bytes read back
     md = ctx.fn("pocket_db::Lmdb::mark_deleted")
     dd = ctx.fn("pocket_db::Lmdb::dump_deleted")
     wr = [i for b, i in ctx.E.an(md).calls() if (i["callee"] or "").endswith("::put")]
-    rd = [i["value"] for b, i in ctx.E.an(dd).calls() if i["value"][0] == "slice"]
+    rd = []
+    for f_ in [dd] + ctx.F.closures_of(dd.path):       # the decoding may sit in a closure handed to map()
+        rd += [(f_, i["value"]) for b, i in ctx.E.an(f_).calls() if i["value"][0] == "slice"]
     okw = bool(wr) and contains_value(wr[0]["args"][2], lambda x: x[0] == "call" and x[1].endswith("::as_slice"))
-    okr = any(v[2] == ("const", 0, "usize") and ctx.E.prover(dd).lin(v[3]) == (32, ()) for v in rd)
-    s.add("S-LAYOUT", dd, "deleted-id-codec", "id[32]", dd.sp, PROVED if (okw and okr) else VIOLATION,
+    okr = any(v[2] == ("const", 0, "usize") and ctx.E.prover(f_).lin(v[3]) == (32, ()) for f_, v in rd)
+    s.add("S-LAYOUT", dd, "deleted-id-codec", "id[32]", dd.sp, PROVED if (okw and okr) else (VIOLATION if rd or not okw else UNDECIDED),
           "the id marker key is the 32 id bytes and is read back as key[0..32]" if (okw and okr) else
           "dump_deleted does not read back the 32-byte key mark_deleted writes")
-    return padlen
 
 
 def markers_never_removed(ctx, s):
